@@ -46,6 +46,7 @@ def setup(ctx):
     ctx.require("monitor", "raw_mode_runs", 5000)
     ctx.require("monitor", "l3_raw_mode_calls", 6)
     ctx.require("monitor", "overlapping_calls", 40)
+    ctx.require("monitor", "late_tail_calls", 40)
 
 
 CAP = 10 * 1024 * 1024
@@ -557,6 +558,67 @@ def run_l3_overlap(ctx):
                                  sample={"level": "L3-overlap", "calls": list(combo), "entries": list(entry_kinds), "raw": raw, "results": [r[0] for r in results]})
 
 
+def run_l3_late_tail(ctx):
+    """A server that keeps sending after a complete non-2x header (junk, a second response): the response was
+    complete at the header, whether the extra bytes reach the client before or after it has hung up.  The same
+    stream sent in one piece is the control."""
+    from nauyaca.client.session import GeminiClient
+
+    from vf import peers
+
+    plan = {}
+
+    def behaviour(conn):
+        conn.read_line(timeout=5)
+        if plan.get("upload"):
+            conn.drain(timeout=0.2)
+        conn.send(plan["header"])
+        if plan["pause"]:
+            time.sleep(plan["pause"])
+        try:
+            conn.send(plan["tail"])
+            if plan["pause"]:
+                time.sleep(0.02)
+                conn.send(plan["tail"])
+        except Exception:
+            pass
+        conn.close()
+
+    with peers.ScriptedPeer(behaviour=behaviour) as peer:
+        for rep in range(ctx.pick(1, 4)):
+            for hi, header in enumerate((b"51 Not found\r\n", b"60 gemini://example.org/new\r\n", b"31 gemini://example.org/elsewhere\r\n", b"10 Enter a name\r\n", b"44 30\r\n")):
+                if ctx.nshards > 1 and hi % 4 != ctx.shard % 4:
+                    continue
+                for tail in (b"20 text/gemini\r\nsecond\n", b"unexpected body " * 50):
+                    for pause in (0, 0.08):
+                        for entry in ("get", "upload"):
+                            for raw in (False, True):
+                                plan.update(header=header, tail=tail, pause=pause, upload=(entry == "upload"))
+                                url = f"gemini://127.0.0.1:{peer.port}/x"
+
+                                async def go():
+                                    c = GeminiClient(timeout=5, trust_on_first_use=False, **({"decode_text": False} if raw else {}))
+                                    if entry == "get":
+                                        return await c.get(url, follow_redirects=False)
+                                    return await c.upload(url, b"abc", mime_type="text/plain")
+
+                                try:
+                                    r = asyncio.run(go())
+                                    res = ("response", r.status, r.meta, r.body)
+                                except BaseException as e:  # noqa: BLE001
+                                    res = ("error", type(e).__name__, str(e)[:120])
+                                peer.wait_idle(3)
+                                ctx.count("monitor", "late_tail_calls")
+                                status, meta = int(header[:2]), header[3:-2].decode()
+                                wit = {"level": "L3-late-tail", "entry": entry, "raw_mode": raw, "header": header, "tail": tail[:40], "pause_before_tail": pause, "result": res}
+                                if res != ("response", status, meta, None):
+                                    ctx.violation(f"delivery-dependent:complete-non2x-then-more-bytes:entry={entry}",
+                                                  "a complete non-2x response followed by further bytes was not reported as that response" + (" when the further bytes came late" if pause else ""), wit)
+                                else:
+                                    ctx.count("outcome", "late-tail:response")
+                                ctx.case(("late-tail", header[:2], len(tail), pause, entry, raw, res[0]), True, sample=wit)
+
+
 def run(ctx):
     run_l1(ctx)
     run_l1_cap(ctx)
@@ -564,3 +626,5 @@ def run(ctx):
         run_l3(ctx)
     if ctx.shard >= 4 or ctx.nshards == 1:
         run_l3_overlap(ctx)
+    if ctx.shard < 4 or ctx.nshards == 1:
+        run_l3_late_tail(ctx)
